@@ -250,7 +250,7 @@ class Builder:
             self._fn(head, opts)
         elif kind in ('struct', 'enum'):
             self._type(kind, head, opts)
-        elif kind in ('const', 'static', 'macro'):
+        elif kind in ('const', 'static', 'macro', 'type'):
             self._verbatim(kind, head, opts)
         elif kind == 'generate':
             if head.strip() == 'units_table':
